@@ -28,7 +28,7 @@ def check(ctx):
     cases = os.path.join(ctx.scratch, "c03_cases.ndjson")
     ctx.tlc("MC_Mutate", env={"VERIF_SEEDS": seeds, "VERIF_OUT": cases}, workers=12, timeout=2400)
     res = os.path.join(ctx.scratch, "c03_res.ndjson")
-    ctx.vh_ok(["c03-replay", cases, res], timeout=3000)
+    ctx.vh_ok(["c03-replay", cases, res, seeds], timeout=3000)
     n = 0
     for r in vlib.read_nd(res, quoted=False):
         if r.get("summary"):
